@@ -231,6 +231,19 @@ func (g *Gen) applyContractX(st *State, c *Contract, key string, names []string,
 	for k, v := range extra {
 		vars[k] = v
 	}
+	// a pure call whose argument is still private gets no functional-consistency
+	// claim across heap writes (its pointee may change without an epoch change)
+	privateArg := false
+	for _, a := range args {
+		if (a.K == VScalar && a.T != nil && g.freshRefs[a.T]) || (a.K == VSlice && g.freshRefs[a.F[0].T]) {
+			privateArg = true
+		}
+	}
+	if !c.Pure || !privateArg {
+		for _, a := range args {
+			g.escape(a)
+		}
+	}
 	sc := g.specCtxVars(st, st, vars)
 	sc.calleeKey = key
 	for _, cl := range c.Requires {
@@ -281,7 +294,7 @@ func (g *Gen) applyContractX(st *State, c *Contract, key string, names []string,
 					}
 					for _, n := range g.uniOrder {
 						if compOfType(n, ty) {
-							st.Heap[n] = pre.Heap[n]
+							st.Heap[n] = g.heapGet(pre, n, g.universe[n])
 						}
 					}
 					continue
@@ -321,6 +334,9 @@ func (g *Gen) applyContractX(st *State, c *Contract, key string, names []string,
 		}
 		if c.Stable {
 			g.Assumed["stable: "+short+" depends only on its arguments and on fields that are never written after initialisation"] = true
+		}
+		if privateArg && !c.Stable {
+			flat = append(flat, g.fresh("private", SInt))
 		}
 		if heapDep && !c.Stable {
 			// the result may depend on heap cells reachable from a reference: it is a
